@@ -311,7 +311,11 @@ def run_check(pid, tier, seed, replay=None):
         merged['evaluations'] += r['evaluations']
         merged['nontrivial'].update(tuple(x) if isinstance(x, list) else x for x in r['nontrivial'])
         merged['samples'].extend(r['samples'][:2])
-        merged['counters'].update(r['counters'])
+        for ck, cv in r['counters'].items():
+            if ck.startswith('max_'):
+                merged['counters'][ck] = max(merged['counters'].get(ck, 0), cv)  # maxima merge by max, counts by sum
+            else:
+                merged['counters'][ck] += cv
         merged['known'].update(r['known'])
         merged['violations'].extend(r['violations'])
         if r['inconclusive']:
